@@ -22,8 +22,8 @@ ASSUMPTIONS = [
     "no ACL, implicit defaults off, add_comments off",
     "if both front ends raise the same exception type for an input they are counted as agreeing (exceptions_agreed)",
 ]
-FLOORS = {"quick": {"pairs_compared": 500, "nonempty_patches": 300, "file_workers_compared": 150, "file_workers_concrete_model": 80},
-          "thorough": {"pairs_compared": 20000, "nonempty_patches": 12000, "file_workers_compared": 150, "file_workers_concrete_model": 80}}
+FLOORS = {"quick": {"pairs_compared": 500, "nonempty_patches": 300, "file_workers_compared": 150, "file_workers_concrete_model": 80, "equal_config_pairs": 300},
+          "thorough": {"pairs_compared": 20000, "nonempty_patches": 12000, "file_workers_compared": 150, "file_workers_concrete_model": 80, "equal_config_pairs": 300}}
 EXTRA_MODELS = {"huawei": ["Huawei CE6870", "Huawei NE40E-X8", "Huawei Quidway S5300"], "huawei ce": ["Huawei"], "cisco": ["Cisco Catalyst 2960"],
                 "nexus": ["Cisco Nexus 3432"], "asr": ["Cisco XRv"], "iosxr": ["Cisco ASR 9010"]}
 
@@ -146,6 +146,18 @@ def run_pairs(spec, acc):
             if i % n != k:
                 continue
             compare(hw, trees[a], trees[b], acc, {"cross": vk, "model": hw.model, "old": plain(trees[a]), "new": plain(trees[b])})
+    # (b') equal and reordered configurations: nothing differs, yet logic functions that read unchanged rows may still emit commands
+    for vk, items in by_vendor.items():
+        hw = items[0][1]
+        for s, _, old, new in items:
+            for t in (old, new):
+                i += 1
+                if i % n != k:
+                    continue
+                acc.count("equal_config_pairs")
+                compare(hw, t, t, acc, {"equal": vk, "sample": s[0], "model": hw.model, "old": plain(t), "new": plain(t)})
+                rev = type(t)(reversed(list(t.items())))
+                compare(hw, t, rev, acc, {"equal": vk, "sample": s[0], "model": hw.model, "old": plain(t), "new": plain(rev)})
     # (c) random recombinations
     total = 400 if tier == "quick" else 20000
     vks = sorted(by_vendor)
